@@ -12,6 +12,7 @@ package main
 
 import (
 	"context"
+	"errors"
 	"fmt"
 	"hash/crc32"
 	"io"
@@ -51,14 +52,31 @@ func genContent(seed uint64, size int) []byte {
 // at most k bytes per call (k=0: unlimited); io.EOF either together with a short final read (eager, like
 // pkg/bytes.Buffer) or only on the next call (like bufio/os.File).
 type policyReader struct {
-	data  []byte
-	off   int
-	k     int
-	eager bool
+	data   []byte
+	off    int
+	k      int
+	eager  bool
+	failAt int // >0: the read that would pass this offset fails with an I/O error instead
 }
 
 func (r *policyReader) Read(p []byte) (int, error) {
+	if r.failAt > 0 && r.off >= r.failAt {
+		return 0, errors.New("verif: injected read error")
+	}
 	rem := len(r.data) - r.off
+	if r.failAt > 0 && rem > r.failAt-r.off {
+		rem = r.failAt - r.off
+		n := len(p)
+		if rem < n {
+			n = rem
+		}
+		if r.k > 0 && r.k < n {
+			n = r.k
+		}
+		copy(p, r.data[r.off:r.off+n])
+		r.off += n
+		return n, nil
+	}
 	n := len(p)
 	if rem < n {
 		n = rem
@@ -489,6 +507,44 @@ func handleChunks(f []string) string {
 	return fmt.Sprintf("n=%d comp=%s %s", len(chunks), comp, strings.Join(out, " "))
 }
 
+// rde.<kind> reorder chunkSize k eager layout failPart failFile failAt
+// A file reader of the sender fails after failAt bytes; whatever the sender still sends is delivered in order.
+func handleRde(f []string) string {
+	if len(f) != 9 {
+		return "bad-op"
+	}
+	reorder := f[1] == "1"
+	chunkSize, k := atoi(f[2]), atoi(f[3])
+	eager := f[4] == "1"
+	layout := parseLayout(f[5])
+	fp, ff, fa := atoi(f[6]), atoi(f[7]), atoi(f[8])
+	topic := data.TopicMeasurePartSync.String()
+	parts := streamingParts(layout, k, eager, topic)
+	if fp < len(parts) && ff < len(parts[fp].Files) {
+		parts[fp].Files[ff].Reader.(*policyReader).failAt = fa
+	}
+	md := &clusterv1.SyncMetadata{Group: c17Group, ShardId: 0, Topic: topic, Timestamp: 1, TotalParts: uint32(len(parts))}
+	rc := &refClient{}
+	_, failed, _, serr := pub.VerifC17StreamPartsAsChunks(rc, c17Session, md, parts, uint32(chunkSize))
+	var fl []string
+	for _, x := range failed {
+		fl = append(fl, x.PartID)
+	}
+	h := &recHandler{}
+	srv := sub.VerifC17NewServer(reorder, 10, 5, map[bus.Topic]queue.ChunkedSyncHandler{data.TopicMeasurePartSync: h})
+	st := &scriptServer{in: rc.reqs}
+	ret := "ok"
+	if rerr := srv.SyncPart(st); rerr != nil {
+		ret = "err"
+	}
+	sn := "ok"
+	if serr != nil {
+		sn = "err"
+	}
+	return fmt.Sprintf("snd=%s failed=%s acks=%s ret=%s inst=%s leak=%d disc=%d", sn, ifEmpty(len(fl) == 0, "-")+strings.Join(fl, ","),
+		ackString(st.resps), ret, h.installedDigest(), len(h.open), h.discarded)
+}
+
 func handle(f []string) string {
 	if len(f) == 0 {
 		return "bad-op"
@@ -499,10 +555,14 @@ func handle(f []string) string {
 		return handleRec(f)
 	case "chunks":
 		return handleChunks(f)
+	case "rde":
+		return handleRde(f)
 	case "msr", "str", "trc":
 		return handleReal(mode, f)
 	case "e2e":
 		return handleE2E(f)
+	case "snd":
+		return handleSnd(f)
 	}
 	return "bad-op"
 }
@@ -511,6 +571,7 @@ var _ = sort.Strings
 
 func main() {
 	_ = logger.Init(logger.Logging{Env: "prod", Level: "fatal"})
+	sweepStaleScratch()
 	defer cleanupScratch()
 	drv.Run(handle)
 	_ = os.Stdout.Sync()
